@@ -1273,6 +1273,56 @@ Section Sound.
     rewrite (prog_sound _ H). apply (L_hodge_hodge G HL); [|exact Hk].
     rewrite <- (prog_sound _ H). apply infer_sound; [exact Hi | now apply prog_wf].
   Qed.
+  (* the classical degree of a program is a degree of its meaning *)
+  Theorem tdeg_sound t : forall k, tdeg (dim G) t = Some k -> wt t -> deg G (td t) k.
+  Proof.
+    induction t as [s j n|c|c t IH|ts IH|t IH|t IH|t IH|a b IHa IHb] using tree_ind'; intros k H Hw.
+    - cbn in H. injection H as <-. destruct (Hw (s, j, n)) as [_ [_ Hd]]; [now left|exact Hd].
+    - cbn in H. injection H as <-. cbn [tden]. apply (L_deg_smul G HL), (L_deg_unit G HL).
+    - cbn [tden]. apply (L_deg_smul G HL). now apply IH.
+    - rewrite td_TSum. apply msum_deg. cbn [tdeg] in H.
+      assert (Hall : Forall (fun t => tdeg (dim G) t = Some k) ts).
+      { destruct (map (tdeg (dim G)) ts) as [|r0 rest] eqn:E; [discriminate|].
+        destruct (forallb (opt_nat_eqb r0) rest) eqn:A; [|discriminate]. subst r0.
+        assert (Hm : forall x, In x (map (tdeg (dim G)) ts) -> x = Some k).
+        { rewrite E. intros x [<-|Hx]; [reflexivity|]. rewrite forallb_forall in A. specialize (A x Hx).
+          destruct x as [y|]; cbn in A; [|discriminate]. apply Nat.eqb_eq in A. now subst. }
+        apply Forall_forall. intros x Hx. apply Hm, in_map_iff. now exists x. }
+      apply Forall_forall. intros x Hx. apply in_map_iff in Hx. destruct Hx as [t [<- Ht]].
+      rewrite Forall_forall in IH, Hall. apply IH; auto.
+      intros a Ha. apply Hw. rewrite tatoms_TSum. apply in_flat_map. now exists t.
+    - cbn [tdeg] in H. destruct (tdeg (dim G) t) as [j|] eqn:E; [|discriminate]. injection H as <-.
+      cbn [tden]. apply (L_deg_d G HL). now apply IH.
+    - cbn [tdeg] in H. destruct (tdeg (dim G) t) as [[|j]|] eqn:E; try discriminate. injection H as <-.
+      cbn [tden]. apply (L_deg_delta G HL). now apply IH.
+    - cbn [tdeg] in H. destruct (tdeg (dim G) t) as [j|] eqn:E; [|discriminate].
+      destruct (Nat.leb j (dim G)) eqn:L; [|discriminate]. injection H as <-. apply Nat.leb_le in L.
+      cbn [tden]. apply (L_deg_hodge G HL); [now apply IH|exact L].
+    - cbn [tdeg] in H. destruct (tdeg (dim G) a) as [j|] eqn:Ea; [|discriminate].
+      destruct (tdeg (dim G) b) as [l|] eqn:Eb; [|discriminate]. injection H as <-.
+      cbn [tden]. apply (L_deg_wedge G HL).
+      + apply IHa; auto. intros x Hx. apply Hw. cbn [tatoms]. apply in_or_app. now left.
+      + apply IHb; auto. intros x Hx. apply Hw. cbn [tatoms]. apply in_or_app. now right.
+  Qed.
+
+  (* the laws for programs of every classical degree (coefficients, sums and nestings included) *)
+  Theorem law_d_top_deg t : prog t -> tdeg (dim G) t = Some (dim G) -> ev (TD t) = 0m.
+  Proof.
+    intros H Hd. rewrite (prog_sound _ (prog_D _ H)). cbn [tden]. apply (L_d_top G HL).
+    apply tdeg_sound; [exact Hd | apply H].
+  Qed.
+  Theorem law_delta_bot_deg t : prog t -> tdeg (dim G) t = Some 0%nat -> ev (TDelta t) = 0m.
+  Proof.
+    intros H Hd. rewrite (prog_sound _ (prog_Delta _ H)). cbn [tden]. apply (L_delta_bot G HL).
+    apply tdeg_sound; [exact Hd | apply H].
+  Qed.
+  Theorem law_hodge_hodge_deg t k : prog t -> tdeg (dim G) t = Some k -> (k <= dim G)%nat ->
+    ev (THodge (THodge t)) = rsgn G (k * (dim G - k)) ** ev t.
+  Proof.
+    intros H Hd Hk. rewrite (prog_sound _ (prog_Hodge _ (prog_Hodge _ H))). cbn [tden].
+    rewrite (prog_sound _ H). apply (L_hodge_hodge G HL); [|exact Hk].
+    apply tdeg_sound; [exact Hd | apply H].
+  Qed.
 End Sound.
 
 (* =================================================================== degree arithmetic (syntactic) *)
